@@ -4,12 +4,14 @@ import (
 	"bytes"
 	"fmt"
 	"io"
+	"strings"
 
 	"github.com/gobwas/ws/wsutil"
 	"wsverif/vh"
 )
 
 func init() {
+	drivers["c08r"] = c08r
 	drivers["c05"] = c05
 	drivers["c07"] = c07
 	drivers["c07u"] = c07u
@@ -209,6 +211,69 @@ func c05(c *ctx) {
 			}
 		}
 	}
+	// a 64-bit length with its top bit set is not a length (RFC 6455 5.2): the frame is refused, whatever
+	// its position, opcode or the size limit, and nothing after its header is delivered
+	for _, side := range []string{"server", "client"} {
+		for _, lenBytes := range [][]byte{{0x80, 0, 0, 0, 0, 0, 0, 0}, {0x80, 0, 0, 0, 0, 0, 0, 1}, {0xff, 0xff, 0xff, 0xff, 0xff, 0xff, 0xff, 0xff}, {0xc0, 0, 0, 0, 0, 0, 0, 0x10}} {
+			for _, op := range []int{1, 2, 0, 9} {
+				for _, max := range []int64{0, 1000} {
+					key := fmt.Sprintf("msb/%s/%x/%d/%d", side, lenBytes, op, max)
+					if !vh.Only(key) {
+						continue
+					}
+					masked := side == "server"
+					var stream []byte
+					if op == 0 { // a continuation needs an open message
+						stream = vh.BuildFrame(1, false, 0, masked, [4]byte{1, 2, 3, 4}, []byte("ab"))
+					}
+					hdr := []byte{0x80 | byte(op), 127}
+					if masked {
+						hdr[1] |= 0x80
+					}
+					hdr = append(hdr, lenBytes...)
+					if masked {
+						hdr = append(hdr, 9, 9, 9, 9)
+					}
+					stream = append(append(stream, hdr...), bytes.Repeat([]byte{'Z'}, 64)...)
+					rd := &wsutil.Reader{Source: bytes.NewReader(stream), State: wsState(side), MaxFrameSize: max}
+					var delivered []byte
+					var lastErr error
+					paniced := ""
+					func() {
+						defer func() {
+							if p := recover(); p != nil {
+								paniced = fmt.Sprint(p)
+							}
+						}()
+						if op == 0 { // the open message's first fragment
+							if _, err := rd.NextFrame(); err != nil {
+								lastErr = fmt.Errorf("prefix refused: %v", err)
+								return
+							}
+							io.ReadFull(rd, make([]byte, 2))
+						}
+						// the offending frame: its header must be refused at once
+						_, lastErr = rd.NextFrame()
+						if lastErr == nil {
+							b := make([]byte, 32)
+							for j := 0; j < 4; j++ {
+								k, err := rd.Read(b)
+								delivered = append(delivered, b[:k]...)
+								if err != nil {
+									break
+								}
+							}
+						}
+					}()
+					if lastErr == nil || strings.HasPrefix(fmt.Sprint(lastErr), "prefix refused") || paniced != "" || len(delivered) > 0 {
+						t.meta.Direct = append(t.meta.Direct, map[string]interface{}{"key": key,
+							"what": fmt.Sprintf("a frame announcing a length with the top bit set was not refused (err=%v panic=%q delivered=%d bytes)", lastErr, paniced, len(delivered))})
+					}
+					t.traces++
+				}
+			}
+		}
+	}
 	// MaxFrameSize around the announced length
 	for _, side := range []string{"server", "client"} {
 		for _, max := range []int{129, 130, 131, 1, 3} {
@@ -309,6 +374,45 @@ func c07(c *ctx) {
 	}
 	// messages abandoned half-way (also inside a multi-byte sequence) must not disturb the next one
 	reuseFamily(t, c, "utf8reuse", func(rot, disc int) bool { return disc >= 0 && (c.thorough || rot%4 == 1) })
+	t.finish(c)
+}
+
+// c08r: control frames answered by the read helpers themselves (ReadData and its variants), also when
+// they arrive between the fragments of a text message whose UTF-8 check must not touch their payloads.
+func c08r(c *ctx) {
+	t := &rsink{out: vh.NewOut(c.dir, "c08r", 40000), shapes: vh.Shapes{}, meta: &vh.Meta{Property: "C08", Tier: c.tier, Seed: c.seed,
+		Rule: "traces = ReadData / ReadClientData / ReadServerData / Text / Binary over streams in which a ping, pong or close (payloads: empty, ASCII, bytes that are not UTF-8, a lone continuation byte, 125 bytes; closes with a code only, a reason, a bad code) arrives before, between the fragments of (text and binary, ending inside a multi-byte sequence or not) and after a message; both sides; replies parsed from the destination; distinct = (shape, control payload class, outcome)"}}
+	defer t.out.Close()
+	ctls := []fspec{
+		{Op: 9, Fin: true, Pay: []byte{}}, {Op: 9, Fin: true, Pay: []byte("abc")}, {Op: 9, Fin: true, Pay: []byte{0xff, 0xfe, 0x80}}, {Op: 9, Fin: true, Pay: []byte{0xac}},
+		{Op: 9, Fin: true, Pay: asciiPay(125, 3)}, {Op: 10, Fin: true, Pay: []byte{0xc3}}, {Op: 8, Fin: true, Pay: closePay(2)}, {Op: 8, Fin: true, Pay: append(closePay(2), []byte("bye")...)},
+		{Op: 8, Fin: true, Pay: []byte{}}, {Op: 8, Fin: true, Pay: []byte{0x03, 0xed}}, {Op: 8, Fin: true, Pay: append(closePay(2), 0xff)},
+	}
+	msgs := [][]fspec{
+		{{Op: 1, Fin: false, Pay: []byte("caf\xc3")}, {Op: 0, Fin: true, Pay: []byte("\xa9!")}},
+		{{Op: 1, Fin: false, Pay: []byte("ab")}, {Op: 0, Fin: false, Pay: []byte{}}, {Op: 0, Fin: true, Pay: []byte("cd")}},
+		{{Op: 2, Fin: false, Pay: []byte{0xff, 0x00}}, {Op: 0, Fin: true, Pay: []byte{0x80}}},
+		{{Op: 1, Fin: true, Pay: []byte("whole")}},
+	}
+	rot := 0
+	for mi, m := range msgs {
+		for ci, ctl := range ctls {
+			for pos := 0; pos <= len(m); pos++ {
+				for _, side := range []string{"server", "client"} {
+					rot++
+					var fs []fspec
+					fs = append(fs, m[:pos]...)
+					fs = append(fs, ctl)
+					fs = append(fs, m[pos:]...)
+					fs = append(fs, fspec{Op: 2, Fin: true, Pay: []byte("after")})
+					want := []int{1, 2}
+					v := rvariant{"readdata", want, -1, true}
+					key := fmt.Sprintf("reply/%d/%d/%d/%s", mi, ci, pos, side)
+					t.run(mkScenario(key, side, v, fs, rchunks[rot%len(rchunks)], rbufs[(rot/3)%len(rbufs)]))
+				}
+			}
+		}
+	}
 	t.finish(c)
 }
 
